@@ -21,14 +21,20 @@ var c17BaseRules = []string{
 	`(?i)foo`, `bar`, `foo|bar`, `^foo`, `bar$`, `a(?i)b`, `(?U)a+b`, `(a|b)c`, `[a-c]+\.com`,
 	`.*\.example\.com`, `x|`, `^$`, `(?i:baz)`, `qux(?i)`,
 	`A`, `(?i:a)[^a]$`, // alternation factoring in regexp/syntax loses the fold flag when these are joined
+	`^bar$`, `^example\.com$`, `\Afoo\z`, // fully anchored plain literals (LiteralPrefix reports them "complete")
 }
 
 var c17BaseHosts = []string{
 	"foo", "FOO", "bar", "BAR", "Bar.com", "foobar", "barfoo", "ab", "aB", "AB", "ac", "bc", "BC",
 	"abc.com", "ABC.COM", "www.example.com", "WWW.EXAMPLE.COM", "x", "", "baz", "BAZ", "qux", "QUX", "quxBAR", "a", "A",
+	"example.com", "example.com.evil.org",
 }
 
 func c17GenRegexp(r *rand.Rand, depth int) string {
+	if depth == 0 && r.Intn(8) == 0 { // a fully anchored plain literal
+		lits := []string{"a", "b", "ab", "foo", "Bar", `a\.b`, "A", "bar"}
+		return "^" + lits[r.Intn(len(lits))] + "$"
+	}
 	atoms := []string{"a", "b", "c", "A", "B", ".", `\.`, "[a-c]", "[^a]", "[A-B]", "foo", "Bar"}
 	var sb strings.Builder
 	n := 1 + r.Intn(3)
